@@ -404,7 +404,10 @@ def validated(dialect: str) -> bool:
 # the module every assembly targets
 
 
-def make_module(dialect: str, fmt: str, binary_type=("EXEC",)):
+MOD_TEMP = ".Lmod"  # a module symbol whose NAME carries the private-label prefix (disassemblers emit such names)
+
+
+def make_module(dialect: str, fmt: str, binary_type=("EXEC",), temp_named=False):
     """
     A module with a code symbol `mcode`, a data symbol `mdata` and an external
     (proxy-backed) symbol `ext`.  Returns (module, {name: symbol}).
@@ -430,7 +433,7 @@ def make_module(dialect: str, fmt: str, binary_type=("EXEC",)):
     px = gtirb.ProxyBlock()
     m.proxies.add(px)
     syms = {}
-    for name, ref in ((MOD_CODE, cb), (MOD_DATA, db), (MOD_EXT, px)):
+    for name, ref in ((MOD_CODE, cb), (MOD_DATA, db), (MOD_EXT, px)) + (((MOD_TEMP, cb),) if temp_named else ()):
         s = gtirb.Symbol(name, payload=ref)
         s.module = m
         syms[name] = s
